@@ -104,3 +104,20 @@ pub fn token_amount(l: &Ledger, k: &Pubkey) -> u64 {
         _ => 0,
     }
 }
+
+/// write a plain SPL token account directly into a (forked) ledger
+pub fn put_token_account(l: &mut Ledger, key: &Pubkey, mint: &Pubkey, owner: &Pubkey, amount: u64) {
+    let mut d = vec![0u8; 165];
+    d[0..32].copy_from_slice(mint.as_ref());
+    d[32..64].copy_from_slice(owner.as_ref());
+    d[64..72].copy_from_slice(&amount.to_le_bytes());
+    d[108] = 1; // initialized
+    let lamports = rent_min(165);
+    l.put(*key, Account::new(lamports, d, ix::tok()));
+}
+
+/// deterministic scratch key from a label and a salt (used on forks only)
+pub fn scratch_key(salt: u64, label: u64) -> Pubkey {
+    let mut r = Rng::new(salt ^ label.wrapping_mul(0xA24BAED4963EE407));
+    Pubkey::new_from_array(r.bytes32())
+}
